@@ -70,8 +70,12 @@ def check_mode(ten):
 
     def check(case):
         data, opt = case
+        d0 = paramgen.strip_notes(data)
         with lib("constructor"):
-            c = cmd.cls(cmd.opcode("spc"), paramgen.strip_notes(data), **opt)
+            c = cmd.cls(cmd.opcode("spc"), d0, **opt)
+        with lib("constructor, same dictionary objects again"):
+            c2 = cmd.cls(cmd.opcode("spc"), d0, **opt)
+        expect(bytes(c2.dataout) == bytes(c.dataout), "mismatch:second_use_of_the_same_dictionaries_differs")
         f = judge_cdb(cmd.std, c)
         for k, fld in (("pf", "PF"), ("sp", "SP")):
             expect(f[fld] == opt.get(k, cmd.defaults[k]), "mismatch:cdb_field:" + fld, got=f[fld])
@@ -93,6 +97,9 @@ def check_prout(table):
         extra = {k: a[k] for k in ("scope", "pr_type") if k in a}
         with lib("constructor"):
             c = cmd.cls(cmd.opcode(table), a["service_action"], **extra, **kw)
+        with lib("constructor, same dictionary objects again"):
+            c2 = cmd.cls(cmd.opcode(table), a["service_action"], **extra, **kw)
+        expect(bytes(c2.dataout) == bytes(c.dataout), "mismatch:second_use_of_the_same_dictionaries_differs")
         f = judge_cdb(cmd.std, c)
         expect(f["SERVICE ACTION"] == a["service_action"] and f["SCOPE"] == a.get("scope", 0) and f["TYPE"] == a.get("pr_type", 0),
                "mismatch:cdb_fields", got=f)
@@ -129,10 +136,15 @@ def check_xcopy(spc5, table):
     cmd = cmds.BY_NAME["extendedcopy5" if spc5 else "extendedcopy4"]
 
     def check(a):
+        args = paramgen.strip_notes(a)
         with lib("constructor"):
-            c = cmd.cls(cmd.opcode(table), **paramgen.strip_notes(a))
+            c = cmd.cls(cmd.opcode(table), **args)
         judge_cdb(cmd.std, c)
         judge_bytes(c.dataout, [P.xcopy(a, spc5)], "xcopy_parameter_list")
+        # a dictionary that was used once is still a valid parameter dictionary (retry, [seg, seg], reuse)
+        with lib("constructor, same dictionary objects again"):
+            c2 = cmd.cls(cmd.opcode(table), **args)
+        expect(bytes(c2.dataout) == bytes(c.dataout), "mismatch:second_use_of_the_same_dictionaries_differs")
         lst = a.get("cscd_descriptor_list" if spc5 else "target_descriptor_list", [])
         segs = a.get("segment_descriptor_list", [])
         cl = sorted({"seg_%02X" % s["_code"] for s in segs}) + sorted({"pdt_%02X" % d["_pdt"] for d in lst})
